@@ -24,6 +24,8 @@ from verif.sim import core
 REAL_MONO = core.R.monotonic
 
 TIERS = ('quick', 'thorough')
+# evidence and replay files go to /verif unless a sensitivity run (tools/eval_seeded.py) redirects them
+OUT_DIR = os.environ.get('VERIF_OUT') or VERIF_DIR
 WORKERS = int(os.environ.get('VERIF_WORKERS', '0')) or min(16, os.cpu_count() or 1)
 
 
@@ -309,7 +311,7 @@ def minimise(mod, scn, v, budget_s=30):
 
 def write_replay(prop, mod, tier, seed, scn, v, size0=None):
     out = run_one(mod, scn)
-    d = os.path.join(VERIF_DIR, 'replays')
+    d = os.path.join(OUT_DIR, 'replays')
     os.makedirs(d, exist_ok=True)
     body = {
         'format': 1, 'property': prop, 'engine': getattr(mod, 'ENGINE', ''), 'tier': tier, 'seed': seed,
@@ -480,8 +482,8 @@ def check(prop, tier, seed, budget_s=None):
         'coverage': cov, 'assumptions': getattr(mod, 'ASSUMPTIONS', []),
         'wall_s': round(wall, 2), 'violations': n_viol,
     }
-    os.makedirs(os.path.join(VERIF_DIR, 'evidence'), exist_ok=True)
-    evp = os.path.join(VERIF_DIR, 'evidence', '%s.json' % prop)
+    os.makedirs(os.path.join(OUT_DIR, 'evidence'), exist_ok=True)
+    evp = os.path.join(OUT_DIR, 'evidence', '%s.json' % prop)
     with open(evp + '.tmp', 'w') as f:
         json.dump(ev, f, indent=1, sort_keys=True, default=str)
     os.replace(evp + '.tmp', evp)
